@@ -187,6 +187,7 @@ def regenerator(group):
             h.update(open(os.path.join(REPO, f), 'rb').read())
         for f in (__file__, pyarith.__file__):
             h.update(open(f, 'rb').read())
+        h.update(repr([(t['lean'], t['how'], t['binds'], t['params'], t['ret'], t['grid']) for t in GROUPS[group]['targets']]).encode())
         stamp = os.path.join(LEAN, '.lake', f'srcval_{group}.stamp')
         try:
             cached = open(stamp).read() == h.hexdigest()
